@@ -283,6 +283,12 @@ func runNormalised(pr *rules.Property, repo string, cfg core.Config, p *core.Pro
 			}
 			return nil // the normal form does not type-check: discard it
 		}
+		if len(next.Files) != len(base.Files) {
+			if os.Getenv("SPG_DEBUG") != "" {
+				fmt.Fprintf(os.Stderr, "normal form builds %d files, the tree %d: discarded\n", len(next.Files), len(base.Files))
+			}
+			return nil // a rewritten file dropped out of (or into) the build: not the same program
+		}
 		cur = next
 	}
 	evaluate := func(cur *core.Program, inlined []string) *core.Report {
